@@ -54,6 +54,13 @@ def build_fnmod(cid, rng):
                 tmpl = copy.deepcopy(f)
             fns.append(f)
     for f in fns:
+        if rng.random() < 0.3 and not f.lifetimes:
+            # an explicit lifetime parameter (it stays on the trait method: type and const parameters would be lifted)
+            f.lifetimes.append(("'q", []))
+            for p_ in f.params:
+                if p_.ty.key == "str" and p_.form == "plain" and not p_.generic:
+                    p_.generic = "&'q str"
+                    break
         f.fn_id = "%s::%s" % (cid, f.name)
         f.calls = [c for c in f.calls if not c[3]]
         if mode == "mod" and rng.random() < 0.35:
